@@ -858,3 +858,24 @@ brk("C20", "Hamiltonian frozen without a copy", "A8", _sub(
 brk("C20", "numpy error state changed inside a computation", "A6b", _sub(
     BC, "        # real and imaginary part of the integrand\n        if matsubara:\n            tau = -1j * tau\n        # convention is tau.imag < 0\n        if self.temperature == 0.0:\n            check_true(\n                matsubara is False,\n                'Matsubara correlations only defined for temperature > 0')\n            def integrand(w):\n                return self._spectral_density(w) * np.exp(-1j * w * tau)",
     "        # real and imaginary part of the integrand\n        np.seterr(over='ignore')\n        if matsubara:\n            tau = -1j * tau\n        # convention is tau.imag < 0\n        if self.temperature == 0.0:\n            check_true(\n                matsubara is False,\n                'Matsubara correlations only defined for temperature > 0')\n            def integrand(w):\n                return self._spectral_density(w) * np.exp(-1j * w * tau)"))
+
+brk("C09", "propagators use the field of the previous step", "F1", _multi(
+    _sub(SD, '''            if step == 0:
+                field = initial_field
+            else:
+                field = compute_field(
+                    t - dt, dt, previous_state_list, field, state_list)
+            previous_state_list = state_list''', '''            old_field = initial_field if step == 0 else field
+            if step == 0:
+                field = initial_field
+            else:
+                field = compute_field(
+                    t - dt, dt, previous_state_list, field, state_list)
+            previous_state_list = state_list'''),
+    _sub(SD, '''                                    mean_field_system.field_eom(t, state_list,
+                                                                field))''', '''                                    mean_field_system.field_eom(t, state_list,
+                                                                old_field))''')))
+brk("C09", "mean-field back end differentiates the field with the next field", "F1", _multi(
+    _sub(TB, '''        current_field_derivative = self._compute_field_derivative(
+            current_step, current_state_list, current_field)''', '''        current_field_derivative = self._compute_field_derivative(
+            next_step, current_state_list, current_field)''')))
